@@ -484,7 +484,8 @@ def check_status_logic(ctx, rep, rng, tier):
                 # x: odir is passed on, callback only with --verbose
                 if cmd == "x" and "extract" in record:
                     e = record["extract"]
-                    if (e["path"] != ("odir" if odir else None)) or e["callback"] != ("--verbose" in flags):
+                    if ((e["path"] != ("odir" if odir else None)) or e["callback"] != ("--verbose" in flags)) and "x-arguments" not in _CORR:
+                        _CORR["x-arguments"] = 1
                         rep.violation("x passes path=%r callback=%r to extractall for argv %r" % (e["path"], e["callback"], argv[:-1]),
                                       replay, match_keys={"kind": "x-arguments"})
         rep.extra["status_cases"] = n
